@@ -195,3 +195,515 @@ End Complete.
 Theorem formula_parse_complete {T} (pn : string -> option T) t toks :
   Prints op_table pn 0 t toks -> parse op_table pn toks = Ok t.
 Proof. apply parse_complete. exact op_table_ok. Qed.
+
+(* ===================================================== 4. ill-formed token lists *)
+(* what a token contributes to the number of pending operands: +1 an operand or a constant function, 1 - arity an element *)
+Definition tokw (tbl : table) (s : string) : Z :=
+  match lookup tbl s with
+  | Some e => 1 - Z.of_nat (en_arity e)
+  | None => if is_paren_tok s then 0 else 1
+  end.
+Definition weight (tbl : table) (l : list string) : Z := fold_right (fun s acc => tokw tbl s + acc)%Z 0%Z l.
+(* +1 for "(", -1 for ")" *)
+Definition pdelta (s : string) : Z := if String.eqb s "(" then 1 else if String.eqb s ")" then -1 else 0.
+Definition paren_balance (l : list string) : Z := fold_right (fun s acc => pdelta s + acc)%Z 0%Z l.
+Definition nlp (l : list string) : Z := fold_right (fun s acc => (if String.eqb s "(" then 1 else 0) + acc)%Z 0%Z l.
+
+Section Illformed.
+  Context {T : Type}.
+  Variable tbl : table.
+  Variable pn : string -> option T.
+  Hypothesis TOK : table_ok tbl.
+  Hypothesis AR : arities_le2 tbl = true.
+  Local Open Scope Z_scope.
+
+  Lemma weight_cons x l : weight tbl (x :: l) = tokw tbl x + weight tbl l.
+  Proof. reflexivity. Qed.
+  Lemma nlp_cons x l : nlp (x :: l) = (if String.eqb x "(" then 1 else 0) + nlp l.
+  Proof. reflexivity. Qed.
+  Lemma weight_app a b : weight tbl (a ++ b) = weight tbl a + weight tbl b.
+  Proof. induction a as [|x a IH]; [reflexivity|]. cbn [app]. rewrite !weight_cons, IH. (cbv iota; lia). Qed.
+  Lemma nlp_app a b : nlp (a ++ b) = nlp a + nlp b.
+  Proof. induction a as [|x a IH]; [reflexivity|]. cbn [app]. rewrite !nlp_cons, IH. (cbv iota; lia). Qed.
+  Lemma tokw_lparen : tokw tbl "(" = 0.
+  Proof. unfold tokw. now rewrite (tok_lparen TOK). Qed.
+  Lemma in_tbl_nlp top te : lookup tbl top = Some te -> String.eqb top "(" = false.
+  Proof. intros L. destruct (String.eqb_spec top "(") as [->|]; [|reflexivity]. now rewrite (tok_lparen TOK) in L. Qed.
+
+  Lemma pop_ops_split e st ps r : pop_ops tbl e st = (ps, r) -> st = ps ++ r /\ nlp ps = 0.
+  Proof.
+    revert ps r; induction st as [|top st IH]; intros ps r; cbn [pop_ops].
+    - intros [= <- <-]. auto.
+    - destruct (lookup tbl top) as [te|] eqn:L; [|intros [= <- <-]; auto].
+      destruct (pops e te); [|intros [= <- <-]; auto].
+      destruct (pop_ops tbl e st) as [ps' r'] eqn:E. intros [= <- <-]. destruct (IH _ _ eq_refl) as [-> Hn].
+      split; [reflexivity|]. rewrite nlp_cons, Hn, (in_tbl_nlp _ _ L). reflexivity.
+  Qed.
+
+  Lemma pop_until_split st ps r : pop_until_lparen st = (ps, r) ->
+    st = ps ++ r /\ nlp ps = 0 /\ (r = [] \/ exists r', r = "(" :: r').
+  Proof.
+    revert ps r; induction st as [|top st IH]; intros ps r; cbn [pop_until_lparen].
+    - intros [= <- <-]. auto.
+    - destruct (String.eqb_spec top "(") as [->|NE].
+      + intros [= <- <-]. repeat split; eauto.
+      + destruct (pop_until_lparen st) as [ps' r'] eqn:E. intros [= <- <-]. destruct (IH _ _ eq_refl) as (-> & Hn & Hr).
+        repeat split; auto. rewrite nlp_cons, Hn. destruct (String.eqb_spec top "("); [contradiction|reflexivity].
+  Qed.
+
+  Definition sw (s : sy_state) : Z := weight tbl (fst s) + weight tbl (snd s).
+
+  Lemma step_inv tok s :
+    match step tbl tok s with
+    | Ok s' => sw s' = sw s + tokw tbl tok /\ nlp (snd s') = nlp (snd s) + pdelta tok
+    | Err e => e = ESyntax
+    end.
+  Proof.
+    destruct s as [q st]. unfold step, sw. cbn [fst snd].
+    destruct (lookup tbl tok) as [e|] eqn:L.
+    - (* an element *)
+      assert (Hin : in_tbl tbl tok) by now exists e. destruct (@in_tbl_not_paren tbl TOK tok Hin) as (H1 & H2 & H3).
+      assert (Hpd : pdelta tok = 0) by (unfold pdelta; now rewrite H1, H2).
+      destruct (en_is_function e) eqn:F; cbn [negb].
+      + cbn [fst snd]. rewrite weight_cons, nlp_cons, H1, Hpd. (cbv iota; lia).
+      + rewrite H3. destruct (pop_ops tbl e st) as [ps r] eqn:E. destruct (pop_ops_split _ _ _ _ E) as [-> Hn].
+        cbn [fst snd]. rewrite Hpd, weight_cons, nlp_cons, H1, !weight_app, !nlp_app. (cbv iota; lia).
+    - destruct (is_paren_tok tok) eqn:P; cbn [negb].
+      + (* ( ) , *)
+        assert (HT : tokw tbl tok = 0) by (unfold tokw; now rewrite L, P).
+        unfold is_paren_tok in P.
+        destruct (String.eqb_spec tok ",") as [->|N3].
+        * destruct (pop_until_lparen st) as [ps r] eqn:E.
+          destruct (pop_until_split _ _ _ E) as (-> & Hn & Hr). destruct r as [|x r]; [reflexivity|].
+          cbn [fst snd]. rewrite !weight_app, !nlp_app, HT. change (pdelta ",") with 0. (cbv iota; lia).
+        * destruct (String.eqb_spec tok "(") as [->|N1].
+          { cbn [fst snd]. rewrite weight_cons, nlp_cons, HT. change (pdelta "(") with 1. change (String.eqb "(" "(") with true. (cbv iota; lia). }
+          destruct (String.eqb_spec tok ")") as [->|N2]; [|cbn in P; discriminate].
+          destruct (pop_until_lparen st) as [ps r] eqn:E.
+          destruct (pop_until_split _ _ _ E) as (-> & Hn & Hr). destruct Hr as [->|(r' & ->)]; [reflexivity|].
+          assert (HW : weight tbl (ps ++ "(" :: r') = weight tbl ps + weight tbl r').
+          { rewrite weight_app, weight_cons, tokw_lparen. (cbv iota; lia). }
+          assert (HN : nlp (ps ++ "(" :: r') = nlp r' + 1).
+          { rewrite nlp_app, nlp_cons. change (String.eqb "(" "(") with true. (cbv iota; lia). }
+          assert (HP : pdelta ")" = -1) by reflexivity.
+          destruct r' as [|top r'']; [cbn [fst snd]; rewrite HW, HN, HT, HP, weight_app; lia|].
+          destruct (lookup tbl top) as [te|] eqn:Lt; [|cbn [fst snd]; rewrite HW, HN, HT, HP, weight_app; lia].
+          destruct (en_is_function te); cbn [fst snd]; rewrite HW, HN, HT, HP, !weight_app.
+          -- rewrite !weight_cons, nlp_cons, (in_tbl_nlp _ _ Lt). cbn [weight fold_right]. (cbv iota; lia).
+          -- (cbv iota; lia).
+      + (* operand *) cbn [fst snd]. rewrite weight_app, weight_cons. unfold tokw. rewrite L, P. unfold pdelta.
+        unfold is_paren_tok in P. apply orb_false_iff in P as [P _]. apply orb_false_iff in P as [-> ->]. cbn. (cbv iota; lia).
+  Qed.
+
+  Lemma run_inv toks s :
+    match run tbl toks s with
+    | Ok s' => sw s' = sw s + weight tbl toks /\ nlp (snd s') = nlp (snd s) + paren_balance toks
+    | Err e => e = ESyntax
+    end.
+  Proof.
+    revert s; induction toks as [|t toks IH]; intros s; cbn.
+    - (cbv iota; lia).
+    - pose proof (step_inv t s) as H. destruct (step tbl t s) as [s1|e]; [|exact H].
+      specialize (IH s1). destruct (run tbl toks s1) as [s2|e]; [|exact IH].
+      fold (weight tbl toks) (paren_balance toks). (cbv iota; lia).
+  Qed.
+
+  Lemma flush_inv st : match flush_stack st with Ok ps => ps = st /\ nlp st = 0 | Err e => e = ESyntax end.
+  Proof.
+    induction st as [|top st IH]; cbn; [auto|].
+    destruct (String.eqb_spec top "(") as [->|N1]; cbn; [reflexivity|].
+    destruct (String.eqb top ")"); [reflexivity|]. destruct (flush_stack st); [|exact IH].
+    destruct IH as [-> Hn]. fold (nlp st). split; [reflexivity|lia].
+  Qed.
+
+  Lemma infix_to_postfix_inv toks :
+    match infix_to_postfix tbl toks with
+    | Ok p => weight tbl p = weight tbl toks /\ paren_balance toks = 0
+    | Err e => e = ESyntax
+    end.
+  Proof.
+    unfold infix_to_postfix. pose proof (run_inv toks ([], [])) as H. destruct (run tbl toks ([], [])) as [[q st]|e]; [|exact H].
+    pose proof (flush_inv st) as F. destruct (flush_stack st) as [ps|e]; [|exact F]. destruct F as [-> Hn].
+    unfold sw in H. cbn [fst snd] in H. change (weight tbl []) with 0 in H. change (nlp []) with 0 in H. rewrite weight_app. (cbv iota; lia).
+  Qed.
+
+  Lemma build_step_inv (leaf : string -> fnode T) tok st :
+    match build_step tbl leaf tok st with
+    | Ok st' => Z.of_nat (List.length st') = Z.of_nat (List.length st) + tokw tbl tok
+    | Err e => e = ESyntax
+    end.
+  Proof.
+    unfold build_step, tokw. destruct (lookup tbl tok) as [e|] eqn:L.
+    - pose proof (lookup_arity_le2 _ _ _ AR L) as Ha. destruct (Nat.ltb_spec (List.length st) (en_arity e)) as [|Hl]; [reflexivity|].
+      destruct (en_arity e) as [|[|[|k]]]; [| | |lia]; destruct st as [|r [|l rest]]; cbn [List.length] in *; try reflexivity; (cbv iota; lia).
+    - destruct (is_paren_tok tok); cbn [List.length]; (cbv iota; lia).
+  Qed.
+
+  Lemma build_run_inv (leaf : string -> fnode T) p st :
+    match build_run tbl leaf p st with
+    | Ok st' => Z.of_nat (List.length st') = Z.of_nat (List.length st) + weight tbl p
+    | Err e => e = ESyntax
+    end.
+  Proof.
+    revert st; induction p as [|t p IH]; intros st; cbn; [lia|].
+    pose proof (build_step_inv leaf t st) as H. destruct (build_step tbl leaf t st) as [s1|e]; [|exact H].
+    specialize (IH s1). destruct (build_run tbl leaf p s1); [|exact IH]. fold (weight tbl p). (cbv iota; lia).
+  Qed.
+
+  Lemma build_gen_inv (leaf : string -> fnode T) p :
+    match build_gen tbl leaf p with Ok _ => weight tbl p = 1 | Err e => e = ESyntax end.
+  Proof.
+    unfold build_gen. pose proof (build_run_inv leaf p []) as H. destruct (build_run tbl leaf p []) as [[|t [|]]|e]; cbn in H; auto; (cbv iota; lia).
+  Qed.
+
+  Theorem parse_inv toks :
+    match parse tbl pn toks with
+    | Ok _ => weight tbl toks = 1 /\ paren_balance toks = 0
+    | Err e => e = ESyntax
+    end.
+  Proof.
+    unfold parse, build. pose proof (infix_to_postfix_inv toks) as H. destruct (infix_to_postfix tbl toks) as [p|e]; [|exact H].
+    pose proof (build_gen_inv (leaf_of pn) p) as B. destruct (build_gen tbl (leaf_of pn) p); [|exact B]. (cbv iota; lia).
+  Qed.
+
+  Theorem illformed_rejected_gen toks : weight tbl toks <> 1 \/ paren_balance toks <> 0 -> parse tbl pn toks = Err ESyntax.
+  Proof.
+    intros H. pose proof (parse_inv toks) as P. destruct (parse tbl pn toks) as [t|e]; [lia|now subst].
+  Qed.
+End Illformed.
+
+Theorem illformed_rejected {T} (pn : string -> option T) toks :
+  weight op_table toks <> 1%Z \/ paren_balance toks <> 0%Z -> parse op_table pn toks = Err ESyntax.
+Proof. apply illformed_rejected_gen; [exact op_table_ok|apply table_side_condition]. Qed.
+
+(* whatever Function.parse rejects, it rejects with SyntaxError *)
+Theorem parse_rejects_cleanly {T} (pn : string -> option T) toks e : parse op_table pn toks = Err e -> e = ESyntax.
+Proof.
+  intros H. pose proof (parse_inv op_table pn op_table_ok (proj2 table_side_condition) toks) as P. rewrite H in P. exact P.
+Qed.
+
+(* ===================================================== 5. evaluation = denotation over R *)
+Section EvalR.
+  Local Open Scope R_scope.
+  Variable oracle : string -> R -> R -> option R.
+  Hypothesis oracle_pow : forall a b, 0 < a -> oracle "np.float_power" a b = Some (Rpower a b).
+  Variable bigs : list string.
+  Variable vars : list (string * R).
+  Notation ev := (evaluate op_table oracle bigs vars).
+
+  (* no builtin min/max over an operand that is an array of more than one element *)
+  Fixpoint arrays_ok (t : fnode R) : Prop :=
+    match t with
+    | FElem1 _ x => arrays_ok x
+    | FElem2 n l r => arrays_ok l /\ arrays_ok r /\ (in_names n ["min"; "max"] = true -> has_big bigs l || has_big bigs r = false)
+    | _ => True
+    end.
+
+  Lemma b2f_ind b : @b2f R NumR b = ind b.
+  Proof. destruct b; unfold b2f, one, zero, ind; unR; cbn; reflexivity. Qed.
+  Lemma truth_VF x : @truth R NumR (VF x) = truthR x.
+  Proof. unfold truth, truthR, zero. unR. cbn. reflexivity. Qed.
+  Lemma truthR_ind b : truthR (ind b) = b.
+  Proof. unfold truthR, ind. destruct b; [destruct (Reqb_spec 1 0)|destruct (Reqb_spec 0 0)]; cbn; try reflexivity; try lra. Qed.
+
+  Ltac look := match goal with |- context [lookup op_table ?n] =>
+     let v := eval vm_compute in (lookup op_table n) in change (lookup op_table n) with v end.
+  Ltac names n := repeat match goal with
+     | H : context [String.eqb n ?s] |- _ => destruct (String.eqb_spec n s) as [->|?] end.
+
+  Definition tyval (ty : ty) (r : R) : value R := match ty with TyN => VF r | TyB => VB (truthR r) end.
+  Lemma truth_tyval ty r : @truth R NumR (tyval ty r) = truthR r.
+  Proof. destruct ty; cbn [tyval]; [apply truth_VF|reflexivity]. Qed.
+  Lemma vn_tyval ty r : is_vn (tyval ty r) = false.
+  Proof. destruct ty; reflexivity. Qed.
+  Lemma ap1_not a : is_vn a = false -> apply1 oracle "np.logical_not" a = Ok (VB (negb (@truth R NumR a))).
+  Proof. destruct a; try discriminate; reflexivity. Qed.
+  Lemma ap2_and a b : is_vn a = false -> is_vn b = false -> apply2 oracle "np.logical_and" a b = Ok (VB (@truth R NumR a && truth b)).
+  Proof. destruct a, b; try discriminate; reflexivity. Qed.
+  Lemma ap2_or a b : is_vn a = false -> is_vn b = false -> apply2 oracle "np.logical_or" a b = Ok (VB (@truth R NumR a || truth b)).
+  Proof. destruct a, b; try discriminate; reflexivity. Qed.
+  Lemma eval_denotes_R : forall t ty, typeof true t = Some ty -> defined vars t -> arrays_ok t -> ev t = Ok (tyval ty (denote vars t)).
+  Proof.
+    induction t as [c|v|n|n x IH|n l IHl r IHr]; intros ty Hty Hdef Hbig.
+    - cbn in Hty. injection Hty as <-. reflexivity.
+    - cbn in Hty. injection Hty as <-. destruct Hdef as [Hne Hd]. cbn [evaluate denote tyval].
+      destruct (String.eqb_spec v ""); [contradiction|]. destruct (assoc v vars); [reflexivity|contradiction].
+    - cbn [typeof] in Hty. names n; [|discriminate]. injection Hty as <-. cbn [evaluate]. look. reflexivity.
+    - cbn [typeof in_names existsb] in Hty. destruct (typeof true x) as [tx|] eqn:Ex; [|discriminate].
+      specialize (IH tx eq_refl Hdef Hbig). names n; cbn in Hty; try discriminate.
+      all: cbn [evaluate]; look; cbn [en_arity en_method]; rewrite IH; cbn [bind].
+      + (* ! *) injection Hty as <-. cbn [tyval]. replace (denote vars (FElem1 "!" x)) with (ind (negb (truthR (denote vars x)))) by reflexivity.
+        now rewrite truthR_ind, ap1_not, truth_tyval by apply vn_tyval.
+      + destruct tx; cbn in Hty; try discriminate. injection Hty as <-. reflexivity.
+      + destruct tx; cbn in Hty; try discriminate. injection Hty as <-. reflexivity.
+      + destruct tx; cbn in Hty; try discriminate. injection Hty as <-. reflexivity.
+      + destruct tx; cbn in Hty; try discriminate. injection Hty as <-. reflexivity.
+      + destruct tx; cbn in Hty; try discriminate. injection Hty as <-. reflexivity.
+      + destruct tx; cbn in Hty; try discriminate. injection Hty as <-. reflexivity.
+    - cbn [typeof in_names existsb] in Hty. destruct (typeof true l) as [tl|] eqn:El; [|discriminate].
+      destruct (typeof true r) as [tr|] eqn:Er; [|discriminate].
+      destruct Hdef as (Hdl & Hdr & Hpow). destruct Hbig as (Hbl & Hbr & Hmm).
+      specialize (IHl tl eq_refl Hdl Hbl). specialize (IHr tr eq_refl Hdr Hbr). names n; cbn in Hty.
+      all: try (destruct tl, tr; cbn in Hty; discriminate).
+      all: cbn [evaluate]; look; cbn [en_arity en_method]; rewrite IHl, IHr; cbn [bind].
+      all: try rewrite (Hmm eq_refl); rewrite ?andb_false_r; cbn [is_builtin_minmax String.eqb Ascii.eqb Bool.eqb orb andb].
+      all: set (a := denote vars l) in *; set (b := denote vars r) in *.
+      + (* and *) injection Hty as <-. cbn [tyval]. replace (denote vars (FElem2 "and" l r)) with (ind (truthR a && truthR b)) by reflexivity.
+        now rewrite truthR_ind, ap2_and, !truth_tyval by apply vn_tyval.
+      + (* or *) injection Hty as <-. cbn [tyval]. replace (denote vars (FElem2 "or" l r)) with (ind (truthR a || truthR b)) by reflexivity.
+        now rewrite truthR_ind, ap2_or, !truth_tyval by apply vn_tyval.
+      + destruct tl, tr; cbn in Hty; try discriminate. injection Hty as <-. reflexivity.
+      + destruct tl, tr; cbn in Hty; try discriminate. injection Hty as <-. reflexivity.
+      + destruct tl, tr; cbn in Hty; try discriminate. injection Hty as <-. reflexivity.
+      + destruct tl, tr; cbn in Hty; try discriminate. injection Hty as <-. reflexivity.
+      + (* ^ *) destruct tl, tr; cbn in Hty; try discriminate. injection Hty as <-. cbn [tyval].
+        replace (apply2 oracle "np.float_power" (VF a) (VF b)) with (ask oracle "np.float_power" a b) by reflexivity.
+        unfold ask. rewrite oracle_pow by (apply Hpow; reflexivity). reflexivity.
+      + destruct tl, tr; cbn in Hty; try discriminate. injection Hty as <-. cbn [tyval].
+        replace (apply2 oracle "np.float_power" (VF a) (VF b)) with (ask oracle "np.float_power" a b) by reflexivity.
+        unfold ask. rewrite oracle_pow by (apply Hpow; reflexivity). reflexivity.
+      + destruct tl, tr; cbn in Hty; try discriminate. injection Hty as <-. cbn [tyval].
+        replace (apply2 oracle "np.float_power" (VF a) (VF b)) with (ask oracle "np.float_power" a b) by reflexivity.
+        unfold ask. rewrite oracle_pow by (apply Hpow; reflexivity). reflexivity.
+      + (* min *) destruct tl, tr; cbn in Hty; try discriminate. injection Hty as <-. cbn [tyval].
+        replace (denote vars (FElem2 "min" l r)) with (Rmin a b) by reflexivity.
+        replace (apply2 oracle "min" (VF a) (VF b)) with (Ok (if Rltb b a then VF b else VF a) : result (value R)) by reflexivity.
+        unfold Rmin. destruct (Rle_dec a b), (Rltb_spec b a); try reflexivity; do 2 f_equal; lra.
+      + (* max *) destruct tl, tr; cbn in Hty; try discriminate. injection Hty as <-. cbn [tyval].
+        replace (denote vars (FElem2 "max" l r)) with (Rmax a b) by reflexivity.
+        replace (apply2 oracle "max" (VF a) (VF b)) with (Ok (if Rltb a b then VF b else VF a) : result (value R)) by reflexivity.
+        unfold Rmax. destruct (Rle_dec a b), (Rltb_spec a b); try reflexivity; do 2 f_equal; lra.
+      + (* gt *) destruct tl, tr; cbn in Hty; try discriminate. injection Hty as <-. cbn [tyval].
+        replace (denote vars (FElem2 "gt" l r)) with (ind (Rltb b a)) by reflexivity. rewrite <- b2f_ind. reflexivity.
+      + (* lt *) destruct tl, tr; cbn in Hty; try discriminate. injection Hty as <-. cbn [tyval].
+        replace (denote vars (FElem2 "lt" l r)) with (ind (Rltb a b)) by reflexivity. rewrite <- b2f_ind. reflexivity.
+      + (* eq *) destruct tl, tr; cbn in Hty; try discriminate. injection Hty as <-. cbn [tyval].
+        replace (denote vars (FElem2 "eq" l r)) with (ind (Reqb a b)) by reflexivity. rewrite truthR_ind.
+        replace (apply2 oracle "Op.eq" (VF a) (VF b)) with (Ok (VB (Reqb a b || false)) : result (value R)) by reflexivity.
+        now rewrite orb_false_r.
+      + (* neq *) destruct tl, tr; cbn in Hty; try discriminate. injection Hty as <-. cbn [tyval].
+        replace (denote vars (FElem2 "neq" l r)) with (ind (negb (Reqb a b))) by reflexivity. rewrite truthR_ind.
+        replace (apply2 oracle "Op.neq" (VF a) (VF b)) with (Ok (VB (negb (Reqb a b || false))) : result (value R)) by reflexivity.
+        now rewrite orb_false_r.
+      + (* ge *) destruct tl, tr; cbn in Hty; try discriminate. injection Hty as <-. cbn [tyval].
+        replace (denote vars (FElem2 "ge" l r)) with (ind (Rleb b a)) by reflexivity. rewrite truthR_ind.
+        replace (apply2 oracle "Op.ge" (VF a) (VF b)) with (Ok (VB (Rleb b a || (Reqb a b || false))) : result (value R)) by reflexivity.
+        do 2 f_equal. destruct (Rleb_spec b a), (Reqb_spec a b); cbn; try reflexivity; lra.
+      + (* le *) destruct tl, tr; cbn in Hty; try discriminate. injection Hty as <-. cbn [tyval].
+        replace (denote vars (FElem2 "le" l r)) with (ind (Rleb a b)) by reflexivity. rewrite truthR_ind.
+        replace (apply2 oracle "Op.le" (VF a) (VF b)) with (Ok (VB (Rleb a b || (Reqb a b || false))) : result (value R)) by reflexivity.
+        do 2 f_equal. destruct (Rleb_spec a b), (Reqb_spec a b); cbn; try reflexivity; lra.
+  Qed.
+End EvalR.
+
+(* ===================================================== 6. corollaries and refutations *)
+Lemma has_big_nil {T} (t : fnode T) : has_big [] t = false.
+Proof. induction t; cbn; auto. now rewrite IHt1, IHt2. Qed.
+Lemma arrays_ok_nil t : arrays_ok [] t.
+Proof. induction t; cbn; auto. repeat split; auto. intros _. now rewrite !has_big_nil. Qed.
+
+(* array operands: the rows are evaluated one by one *)
+Lemma eval_rows_denotes oracle (HO : forall a b, (0 < a)%R -> oracle "np.float_power" a b = Some (Rpower a b)) bigs rows t :
+  typeof true t = Some TyN -> arrays_ok bigs t -> Forall (fun vars => defined vars t) rows ->
+  evaluate_rows op_table oracle bigs rows t = Ok (map (fun vars => VF (denote vars t)) rows).
+Proof.
+  intros Hty Hb. induction 1 as [|vars rows Hd _ IH]; cbn; [reflexivity|].
+  rewrite (eval_denotes_R oracle HO bigs vars t TyN Hty Hd Hb), IH. reflexivity.
+Qed.
+
+Local Open Scope R_scope.
+Definition pnR : string -> option R := number_of [].
+Definition parseR (s : string) : result (fnode R) := parse_text op_table pnR "and" "or" s.
+(* Function.create(name, s).evaluate(vars) on scalars *)
+Definition run_formula (oracle : string -> R -> R -> option R) (vars : list (string * R)) (s : string) : result (value R) :=
+  match parseR s with Ok t => evaluate op_table oracle [] vars t | Err e => Err e end.
+Definition pow_oracle (oracle : string -> R -> R -> option R) : Prop :=
+  forall a b, 0 < a -> oracle "np.float_power" a b = Some (Rpower a b).
+Definition xyz (x y z : R) : list (string * R) := [("x", x); ("y", y); ("z", z)].
+
+Ltac by_denotation HO tree tyy :=
+  unfold run_formula; change (parseR _) with (Ok tree : result (fnode R)); cbv beta iota;
+  rewrite (eval_denotes_R _ HO [] _ tree tyy eq_refl); [|
+    cbn [defined]; unfold xyz; cbn [assoc String.eqb Ascii.eqb Bool.eqb];
+    repeat split; try discriminate; try (intros _; assumption) | apply arrays_ok_nil].
+
+Section Corollaries.
+  Variable oracle : string -> R -> R -> option R.
+  Hypothesis HO : pow_oracle oracle.
+  Variables x y z : R.
+  Notation run := (run_formula oracle (xyz x y z)).
+
+  Lemma mul_binds_tighter_than_add :
+    run "x+y*z" = Ok (VF (x + y * z)) /\ run "x*y+z" = Ok (VF (x * y + z)) /\ run "x-y/z" = Ok (VF (x - y / z)).
+  Proof.
+    split; [|split].
+    - by_denotation HO (FElem2 "+" (FVar "x") (FElem2 "*" (FVar "y") (FVar "z")) : fnode R) TyN. reflexivity.
+    - by_denotation HO (FElem2 "+" (FElem2 "*" (FVar "x") (FVar "y")) (FVar "z") : fnode R) TyN. reflexivity.
+    - by_denotation HO (FElem2 "-" (FVar "x") (FElem2 "/" (FVar "y") (FVar "z")) : fnode R) TyN. reflexivity.
+  Qed.
+
+  Lemma sub_left_assoc : run "x-y-z" = Ok (VF (x - y - z)) /\ run "x/y/z" = Ok (VF (x / y / z)) /\ run "x-y+z" = Ok (VF (x - y + z)).
+  Proof.
+    split; [|split].
+    - by_denotation HO (FElem2 "-" (FElem2 "-" (FVar "x") (FVar "y")) (FVar "z") : fnode R) TyN. reflexivity.
+    - by_denotation HO (FElem2 "/" (FElem2 "/" (FVar "x") (FVar "y")) (FVar "z") : fnode R) TyN. reflexivity.
+    - by_denotation HO (FElem2 "+" (FElem2 "-" (FVar "x") (FVar "y")) (FVar "z") : fnode R) TyN. reflexivity.
+  Qed.
+
+  Lemma power_right_assoc : 0 < x -> 0 < y ->
+    run "x^y^z" = Ok (VF (Rpower x (Rpower y z))) /\ run "x**y**z" = Ok (VF (Rpower x (Rpower y z))).
+  Proof.
+    intros Hx Hy. split.
+    - by_denotation HO (FElem2 "^" (FVar "x") (FElem2 "^" (FVar "y") (FVar "z")) : fnode R) TyN. reflexivity.
+    - by_denotation HO (FElem2 "**" (FVar "x") (FElem2 "**" (FVar "y") (FVar "z")) : fnode R) TyN. reflexivity.
+  Qed.
+
+  (* unary minus has the precedence of the power operators (right-associative): .-x^y = -(x^y), x^.-y = x^(-y);
+     `~` binds tighter: ~x^y = (-x)^y *)
+  Lemma unary_minus_vs_power :
+    (0 < x -> run ".-x^y" = Ok (VF (- Rpower x y)) /\ run "x^.-y" = Ok (VF (Rpower x (- y)))) /\
+    (0 < - x -> run "~x^y" = Ok (VF (Rpower (- x) y))).
+  Proof.
+    split; [intros Hx; split|intros Hx].
+    - by_denotation HO (FElem1 ".-" (FElem2 "^" (FVar "x") (FVar "y")) : fnode R) TyN. reflexivity.
+    - by_denotation HO (FElem2 "^" (FVar "x") (FElem1 ".-" (FVar "y")) : fnode R) TyN. reflexivity.
+    - by_denotation HO (FElem2 "^" (FElem1 "~" (FVar "x")) (FVar "y") : fnode R) TyN. reflexivity.
+  Qed.
+
+  Lemma and_binds_tighter_than_or :
+    run "x or y and z" = Ok (VB (truthR x || (truthR y && truthR z))) /\
+    run "x and y or z" = Ok (VB ((truthR x && truthR y) || truthR z)) /\
+    run "!x and y" = Ok (VB (negb (truthR x) && truthR y)).
+  Proof.
+    split; [|split].
+    - by_denotation HO (FElem2 "or" (FVar "x") (FElem2 "and" (FVar "y") (FVar "z")) : fnode R) TyB.
+      cbn [tyval]. change (denote _ _) with (ind (truthR x || truthR (ind (truthR y && truthR z)))). now rewrite !truthR_ind.
+    - by_denotation HO (FElem2 "or" (FElem2 "and" (FVar "x") (FVar "y")) (FVar "z") : fnode R) TyB.
+      cbn [tyval]. change (denote _ _) with (ind (truthR (ind (truthR x && truthR y)) || truthR z)). now rewrite !truthR_ind.
+    - by_denotation HO (FElem2 "and" (FElem1 "!" (FVar "x")) (FVar "y") : fnode R) TyB.
+      cbn [tyval]. change (denote _ _) with (ind (truthR (ind (negb (truthR x))) && truthR y)). now rewrite !truthR_ind.
+  Qed.
+
+  (* arithmetic binds tighter than the logical operators; relational functions are 0/1 indicators (gt, lt) *)
+  Lemma arithmetic_under_logic : run "x+y and z" = Ok (VB (truthR (x + y) && truthR z)) /\
+                                 run "gt(x,y)*z" = Ok (VF (ind (Rltb y x) * z)).
+  Proof.
+    split.
+    - by_denotation HO (FElem2 "and" (FElem2 "+" (FVar "x") (FVar "y")) (FVar "z") : fnode R) TyB.
+      cbn [tyval]. change (denote _ _) with (ind (truthR (x + y) && truthR z)). now rewrite !truthR_ind.
+    - by_denotation HO (FElem2 "*" (FElem2 "gt" (FVar "x") (FVar "y")) (FVar "z") : fnode R) TyN. reflexivity.
+  Qed.
+End Corollaries.
+
+(* 2^3^2 = 2^(3^2) = 512, not (2^3)^2 = 64 *)
+Lemma two_three_two oracle : pow_oracle oracle -> run_formula oracle (xyz 2 3 2) "x^y^z" = Ok (VF 512).
+Proof.
+  intros HO. rewrite (proj1 (power_right_assoc oracle HO 2 3 2 ltac:(lra) ltac:(lra))). do 2 f_equal.
+  replace (Rpower 3 2) with 9.
+  - replace 9 with (INR 9) by (simpl; lra). rewrite Rpower_pow by lra. simpl. lra.
+  - replace 2 with (INR 2) by (simpl; lra). rewrite Rpower_pow by lra. simpl. lra.
+Qed.
+
+(* ---- the same at the level of tokens, for literals and variables alike (from formula_parse_complete) *)
+Section TokenCorollaries.
+  Context {T : Type}.
+  Variable pn : string -> option T.
+  Variables a b c : string.
+  Hypothesis Ha : operand op_table a.
+  Hypothesis Hb : operand op_table b.
+  Hypothesis Hc : operand op_table c.
+  Notation leaf := (leaf_of pn).
+  Local Open Scope Z_scope.
+
+  Lemma tokens_add_mul : parse op_table pn [a; "+"; b; "*"; c] = Ok (FElem2 "+" (leaf a) (FElem2 "*" (leaf b) (leaf c))).
+  Proof.
+    apply formula_parse_complete.
+    apply (P_bin op_table pn 0 "+" ("+", false, "np.add", 2%nat, 70, -1) _ _ [a] [b; "*"; c]); try (split; reflexivity); try reflexivity; try (cbn; lia).
+    - apply Prints_leaf, Ha.
+    - apply (P_bin op_table pn _ "*" ("*", false, "np.multiply", 2%nat, 80, -1) _ _ [b] [c]); try (split; reflexivity); try reflexivity; try (cbn; lia);
+        apply Prints_leaf; assumption.
+  Qed.
+
+  Lemma tokens_pow_pow : parse op_table pn [a; "^"; b; "^"; c] = Ok (FElem2 "^" (leaf a) (FElem2 "^" (leaf b) (leaf c))).
+  Proof.
+    apply formula_parse_complete.
+    apply (P_bin op_table pn 0 "^" ("^", false, "np.float_power", 2%nat, 90, 1) _ _ [a] [b; "^"; c]); try (split; reflexivity); try reflexivity; try (cbn; lia).
+    - apply Prints_leaf, Ha.
+    - apply (P_bin op_table pn _ "^" ("^", false, "np.float_power", 2%nat, 90, 1) _ _ [b] [c]); try (split; reflexivity); try reflexivity; try (cbn; lia);
+        apply Prints_leaf; assumption.
+  Qed.
+
+  Lemma tokens_sub_sub : parse op_table pn [a; "-"; b; "-"; c] = Ok (FElem2 "-" (FElem2 "-" (leaf a) (leaf b)) (leaf c)).
+  Proof.
+    apply formula_parse_complete.
+    apply (P_bin op_table pn 0 "-" ("-", false, "np.subtract", 2%nat, 70, -1) _ _ [a; "-"; b] [c]); try (split; reflexivity); try reflexivity; try (cbn; lia).
+    - apply (P_bin op_table pn _ "-" ("-", false, "np.subtract", 2%nat, 70, -1) _ _ [a] [b]); try (split; reflexivity); try reflexivity; try (cbn; lia);
+        apply Prints_leaf; assumption.
+    - apply Prints_leaf, Hc.
+  Qed.
+
+  (* max ( a , b ) * pi  and redundant parentheses *)
+  Lemma tokens_call : parse op_table pn ["("; "max"; "("; a; ","; "("; b; ")"; ")"; ")"; "*"; "pi"] =
+                      Ok (FElem2 "*" (FElem2 "max" (leaf a) (leaf b)) (FElem0 "pi")).
+  Proof.
+    apply formula_parse_complete.
+    apply (P_bin op_table pn 0 "*" ("*", false, "np.multiply", 2%nat, 80, -1) _ _ ["("; "max"; "("; a; ","; "("; b; ")"; ")"; ")"] ["pi"]);
+      try (split; reflexivity); try reflexivity; try (cbn; lia).
+    - apply (P_paren op_table pn _ _ ["max"; "("; a; ","; "("; b; ")"; ")"]).
+      apply (P_call2 op_table pn 0 "max" ("max", true, "max", 2%nat, 100, -1) _ _ [a] ["("; b; ")"]); try (split; reflexivity); try reflexivity.
+      + apply Prints_leaf, Ha.
+      + apply (P_paren op_table pn _ _ [b]). apply Prints_leaf, Hb.
+    - apply (P_const op_table pn _ "pi" ("pi", true, "lambda: np.pi", 0%nat, 100, -1)); try (split; reflexivity); try reflexivity. cbn. lia.
+  Qed.
+End TokenCorollaries.
+
+(* ---- F7: the documented reading of eq/neq/ge/le as 0/1 numbers is FALSE of the implementation *)
+Definition eval_denotes_documented : Prop :=
+  forall oracle, pow_oracle oracle -> forall vars t ty, typeof false t = Some ty -> defined vars t ->
+    exists v, evaluate op_table oracle [] vars t = Ok v /\ value_num v = Some (denote vars t).
+
+Definition total_oracle : string -> R -> R -> option R := fun _ a b => Some (Rpower a b).
+
+(* eq(x,1)+eq(y,1) at x = y = 1: numpy adds two booleans with logical-or: True (= 1), not 2 *)
+Lemma indicator_sum_saturates oracle :
+  run_formula oracle [("x", 1); ("y", 1)] "eq(x,1)+eq(y,1)" = Ok (VB true) /\
+  denote [("x", 1); ("y", 1)] (FElem2 "+" (FElem2 "eq" (FVar "x") (FConst 1)) (FElem2 "eq" (FVar "y") (FConst 1))) = 2.
+Proof.
+  split.
+  - unfold run_formula.
+    change (parseR _) with (Ok (FElem2 "+" (FElem2 "eq" (FVar "x") (FConst (Rlit 1 0))) (FElem2 "eq" (FVar "y") (FConst (Rlit 1 0)))) : result (fnode R)).
+    cbv beta iota.
+    change (evaluate _ _ _ _ _) with (Ok (VB ((Reqb 1 (Rlit 1 0) || false) || (Reqb 1 (Rlit 1 0) || false))) : result (value R)).
+    destruct (Reqb_spec 1 (Rlit 1 0)) as [_|N]; [reflexivity|]. exfalso. apply N. unfold Rlit. cbn. lra.
+  - change (denote _ _) with (ind (Reqb 1 1) + ind (Reqb 1 1)). destruct (Reqb_spec 1 1); unfold ind; lra.
+Qed.
+
+Theorem eval_denotes_documented_refuted : ~ eval_denotes_documented.
+Proof.
+  intros H.
+  destruct (H total_oracle (fun a b _ => eq_refl) [("x", 1); ("y", 1)]
+              (FElem2 "+" (FElem2 "eq" (FVar "x") (FConst 1)) (FElem2 "eq" (FVar "y") (FConst 1))) TyN eq_refl) as (v & Hv & Hn).
+  - cbn. repeat split; try discriminate.
+  - change (evaluate _ _ _ _ _) with (Ok (VB ((Reqb 1 1 || false) || (Reqb 1 1 || false))) : result (value R)) in Hv.
+    injection Hv as <-. rewrite (proj2 (indicator_sum_saturates total_oracle)) in Hn.
+    destruct (Reqb_spec 1 1) as [_|N]; [|lra]. cbn in Hn. injection Hn as Hn. unfold one in Hn. unR. cbn in Hn. lra.
+Qed.
+
+(* eq(x,1)-eq(y,1): numpy refuses to subtract booleans — TypeError, for every x and y *)
+Lemma indicator_difference_crashes oracle x y : run_formula oracle [("x", x); ("y", y)] "eq(x,1)-eq(y,1)" = Err EInternal.
+Proof. reflexivity. Qed.
+
+(* .-ge(x,y): TypeError as well *)
+Lemma indicator_negation_crashes oracle x y : run_formula oracle [("x", x); ("y", y)] ".-ge(x,y)" = Err EInternal.
+Proof. reflexivity. Qed.
+
+(* min/max are the Python builtins: an array operand with more than one element raises ValueError *)
+Lemma minmax_array_refuted oracle a b c :
+  evaluate_rows op_table oracle ["x"] [[("x", a)]; [("x", b)]] (FElem2 "min" (FVar "x") (FConst c)) = Err EValue /\
+  evaluate_rows op_table oracle ["x"] [[("x", a)]; [("x", b)]] (FElem2 "max" (FConst c) (FVar "x")) = Err EValue /\
+  evaluate_rows op_table oracle [] [[("x", a)]] (FElem2 "min" (FVar "x") (FConst c)) = Ok [VF (Rmin a c)].
+Proof.
+  repeat split; try reflexivity.
+  change (evaluate_rows _ _ _ _ _) with (Ok [if Rltb c a then VF c else VF a] : result (list (value R))).
+  unfold Rmin. destruct (Rle_dec a c), (Rltb_spec c a); try reflexivity; do 3 f_equal; lra.
+Qed.
